@@ -1127,4 +1127,324 @@ theorem transfer_total {c : Cfg} (hg : good c = true) {n : Nat} {v : VS} (hi : V
             · exact ⟨_, hE, Or.inr (Or.inr (Or.inr rfl))⟩
             · exact absurd ⟨_, hs⟩ hok
 
+/-! ### a full undelegation -/
+
+theorem chopRound_le {y z : Nat} (h : y ≤ z * ONE) : chopRound y ≤ z := by
+  unfold chopRound ONE at *
+  dsimp only
+  (repeat' split) <;> omega
+
+/-- the tokens handed out for at most all shares never exceed the validator's tokens -/
+theorem tokensFromShares_div_le (v : VS) {sh : Nat} (h : sh ≤ v.shares) : v.tokensFromShares sh / ONE ≤ v.tokens := by
+  unfold VS.tokensFromShares dQuo
+  have h1 : sh * v.tokens * ONE * ONE / v.shares ≤ v.tokens * ONE * ONE := by
+    apply Nat.div_le_of_le_mul
+    have : sh * (v.tokens * ONE * ONE) ≤ v.shares * (v.tokens * ONE * ONE) := Nat.mul_le_mul_right _ h
+    calc sh * v.tokens * ONE * ONE = sh * (v.tokens * ONE * ONE) := by simp [Nat.mul_assoc]
+      _ ≤ v.shares * (v.tokens * ONE * ONE) := this
+  have h2 := chopRound_le (z := v.tokens * ONE) h1
+  exact Nat.div_le_of_le_mul (by rw [Nat.mul_comm ONE v.tokens]; exact h2)
+
+theorem delSum_ge {n : Nat} (v : VS) {d : Nat} (hd : d < n) : (v.del d).getD 0 ≤ v.delSum n :=
+  sumTo_ge_term (fun i => (v.del i).getD 0) hd
+
+/-- staking `Unbond` of *all* shares of a delegator: only the stake sanity check of the reward withdrawal can fail -/
+theorem unbond_full_total {n : Nat} {v : VS} (hi : VInv n v) {h d sh : Nat} (hd : d < n) (hdel : v.del d = some sh) :
+    v.unbond h d sh = .error .stakeSanity ∨
+    ∃ v' ret c, v.unbond h d sh = .ok (v', ret, c) ∧ v'.del d = none ∧ VInv n v' := by
+  obtain ⟨si, hs⟩ := Dom_sinfo_some hi.dom hdel
+  have key : v.unbond h d sh = .error .stakeSanity ∨ ∃ r, v.unbond h d sh = .ok r ∧ r.1.del d = none := by
+    unfold VS.unbond
+    rw [hdel]
+    dsimp only
+    rcases withdrawRewards_total hi.ri (h := h) hd hdel hs with hE | ⟨v1, c, hw, i1, s1, f1, _, _, sf1⟩
+    · rw [hE]; exact Or.inl rfl
+    · rw [hw]
+      simp only [bind, Except.bind]
+      rw [if_neg (Nat.lt_irrefl _)]
+      unfold VS.unbondPost
+      rw [if_pos (Nat.sub_self _)]
+      dsimp only
+      unfold VS.removeTokens
+      dsimp only
+      have hsh : sh ≤ v.shares := by
+        have a := delSum_ge v hd
+        rw [hdel] at a
+        have b := hi.sum.1
+        simp only [Option.getD_some] at a
+        omega
+      have hle : (if (v1.setShares d (sh - sh)).shares - sh = 0 then (v1.setShares d (sh - sh)).tokens
+          else (v1.setShares d (sh - sh)).tokensFromShares sh / ONE) ≤ (v1.setShares d (sh - sh)).tokens := by
+        split
+        · exact Nat.le_refl _
+        · have e1 : (v1.setShares d (sh - sh)).tokens = v1.tokens := rfl
+          have e2 : (v1.setShares d (sh - sh)).tokensFromShares sh = v1.tokensFromShares sh := rfl
+          rw [e1, e2]
+          apply tokensFromShares_div_le
+          rw [sf1.2.2]; exact hsh
+      rw [if_neg (by omega)]
+      refine Or.inr ⟨_, rfl, ?_⟩
+      show setAt v1.del d (if sh - sh = 0 then none else some (sh - sh)) d = none
+      simp [setAt]
+  rcases key with hE | ⟨⟨v', ret, c⟩, hr, hnone⟩
+  · exact Or.inl hE
+  · exact Or.inr ⟨v', ret, c, hr, hnone, unbond_VInv hd hr hi⟩
+
+/-! ### the chain -/
+
+/-- every validator of the chain satisfies the invariant (accounts `< nAcc`) -/
+def SInv (s : State) : Prop := ∀ w, w < s.nVal → VInv s.nAcc (s.vs w)
+
+theorem SInv_setVS {s : State} {v : Nat} {x : VS} (hi : SInv s) (hx : VInv s.nAcc x) : SInv (s.setVS v x) := by
+  intro w hw
+  show VInv s.nAcc (setAt s.vs v x w)
+  by_cases h : w = v
+  · subst h; rw [setAt_same]; exact hx
+  · rw [setAt_ne _ _ h]; exact hi w hw
+
+theorem b2 {a b c : Bool} (h : ¬((!(a && b) || c) = true)) : a = true ∧ b = true := by
+  revert h; cases a <;> cases b <;> cases c <;> decide
+theorem b3 {a b c d : Bool} (h : ¬((!(a && b && c) || d) = true)) : a = true ∧ b = true ∧ c = true := by
+  revert h; cases a <;> cases b <;> cases c <;> cases d <;> decide
+theorem lt_of_okAcc' {s : State} {d : Nat} (h : s.okAcc d = true) : d < s.nAcc := by
+  simpa [State.okAcc] using h
+theorem lt_of_okVal {s : State} {d : Nat} (h : s.okVal d = true) : d < s.nVal := by
+  simpa [State.okVal] using h
+
+theorem transferOp_SInv {c : Cfg} (hg : good c = true) {s s' : State} {f t v x : Nat}
+    (hi : SInv s) (h : s.transferOp c f t v x = .ok s') : SInv s' ∧ s'.nAcc = s.nAcc ∧ s'.nVal = s.nVal := by
+  unfold State.transferOp at h
+  split at h
+  · cases h
+  · rename_i hok
+    have hok' : s.okAcc f = true ∧ s.okAcc t = true ∧ s.okVal v = true := by
+      revert hok
+      cases s.okAcc f <;> cases s.okAcc t <;> cases s.okVal v <;> decide
+    split at h
+    · cases h
+    · split at h
+      · cases h
+      · rename_i v' rf rt ht
+        cases h
+        have hf := lt_of_okAcc' hok'.1
+        have htn := lt_of_okAcc' hok'.2.1
+        have hv := lt_of_okVal hok'.2.2
+        rcases transfer_total hg (hi v hv) (h := s.height) (f := f) (t := t) (X := x * ONE)
+            (recv := s.hasRecvRedel f v) hf htn with ⟨e, he, _⟩ | ⟨v2, a, b, hr, hv2⟩
+        · rw [he] at ht; cases ht
+        · rw [hr] at ht; cases ht
+          exact ⟨SInv_setVS hi hv2, rfl, rfl⟩
+
+/-- one successful operation keeps the invariant of every validator (and the universe of accounts / validators) -/
+theorem exec_SInv {c : Cfg} (hg : good c = true) {s s' : State} {o : Op}
+    (hi : SInv s) (h : s.exec c o = .ok s') : SInv s' ∧ s'.nAcc = s.nAcc ∧ s'.nVal = s.nVal := by
+  cases o with
+  | delegate d v amt =>
+    simp only [State.exec] at h
+    split at h
+    · cases h
+    · rename_i hok
+      have hd := lt_of_okAcc' (b2 hok).1
+      have hv := lt_of_okVal (b2 hok).2
+      split at h
+      · cases h
+      · rename_i v' r hx
+        cases h
+        exact ⟨SInv_setVS hi (delegate_VInv hd hx (hi v hv)), rfl, rfl⟩
+  | undelegate d v amt =>
+    simp only [State.exec] at h
+    split at h
+    · cases h
+    · rename_i hok
+      have hd := lt_of_okAcc' (b2 hok).1
+      have hv := lt_of_okVal (b2 hok).2
+      split at h
+      · cases h
+      · split at h
+        · cases h
+        · split at h
+          · cases h
+          · rename_i v' ret r hx
+            cases h
+            exact ⟨SInv_setVS hi (unbond_VInv hd hx (hi v hv)), rfl, rfl⟩
+  | redelegate d src dst amt =>
+    simp only [State.exec] at h
+    split at h
+    · cases h
+    · rename_i hok
+      have hd := lt_of_okAcc' (b3 hok).1
+      have hsrc := lt_of_okVal (b3 hok).2.1
+      have hdst := lt_of_okVal (b3 hok).2.2
+      split at h
+      · cases h
+      · split at h
+        · cases h
+        · split at h
+          · cases h
+          · split at h
+            · cases h
+            · split at h
+              · cases h
+              · rename_i vsrc ret r1 hx
+                split at h
+                · cases h
+                · split at h
+                  · cases h
+                  · rename_i vdst r2 hy
+                    cases h
+                    have a : SInv (s.setVS src vsrc) := SInv_setVS hi (unbond_VInv hd hx (hi src hsrc))
+                    have b : VInv s.nAcc vdst := delegate_VInv hd hy (hi dst hdst)
+                    exact ⟨SInv_setVS (s := s.setVS src vsrc) a b, rfl, rfl⟩
+  | withdraw d v =>
+    simp only [State.exec] at h
+    split at h
+    · cases h
+    · rename_i hok
+      have hok' : s.okAcc d = true ∧ s.okVal v = true := by
+        revert hok
+        cases s.okAcc d <;> cases s.okVal v <;> decide
+      split at h
+      · cases h
+      · rename_i v' r hx
+        cases h
+        exact ⟨SInv_setVS hi (withdrawMsg_VInv (lt_of_okAcc' hok'.1) hx (hi v (lt_of_okVal hok'.2))), rfl, rfl⟩
+  | approve owner spender v shares =>
+    simp only [State.exec] at h
+    split at h
+    · cases h
+    · cases h; exact ⟨hi, rfl, rfl⟩
+  | transfer f t v x =>
+    simp only [State.exec] at h
+    exact transferOp_SInv hg hi h
+  | transferFrom sp f t v x =>
+    simp only [State.exec] at h
+    split at h
+    · cases h
+    · split at h
+      · cases h
+      · split at h
+        · cases h
+        · split at h
+          · cases h
+          · have r := transferOp_SInv hg (s := { s with allow := _ }) (by exact hi) h
+            exact ⟨r.1, r.2.1, r.2.2⟩
+  | alloc v amt =>
+    simp only [State.exec] at h
+    split at h
+    · cases h
+    · rename_i hok
+      have hv : v < s.nVal := by
+        apply lt_of_okVal
+        revert hok; cases s.okVal v <;> decide
+      cases h
+      exact ⟨SInv_setVS hi (alloc_VInv _ (hi v hv)), rfl, rfl⟩
+  | slash v p f =>
+    simp only [State.exec] at h
+    split at h
+    · cases h
+    · rename_i hok
+      have hv : v < s.nVal := by
+        apply lt_of_okVal
+        revert hok; cases s.okVal v <;> cases (decide (ONE < f)) <;> decide
+      cases h
+      exact ⟨SInv_setVS hi (slash_VInv _ _ _ (hi v hv)), rfl, rfl⟩
+  | block =>
+    simp only [State.exec] at h
+    cases h
+    exact ⟨hi, rfl, rfl⟩
+
+theorem step_SInv {c : Cfg} (hg : good c = true) {s : State} (o : Op) (hi : SInv s) :
+    SInv (s.step c o) ∧ (s.step c o).nAcc = s.nAcc ∧ (s.step c o).nVal = s.nVal := by
+  unfold State.step
+  cases h : s.exec c o with
+  | error e => exact ⟨hi, rfl, rfl⟩
+  | ok s' => exact exec_SInv hg hi h
+
+theorem run_SInv {c : Cfg} (hg : good c = true) (ops : List Op) (s : State) (hi : SInv s) :
+    SInv (s.run c ops) ∧ (s.run c ops).nAcc = s.nAcc ∧ (s.run c ops).nVal = s.nVal := by
+  induction ops generalizing s with
+  | nil => exact ⟨hi, rfl, rfl⟩
+  | cons o os ih =>
+    obtain ⟨h1, h2, h3⟩ := step_SInv hg o hi
+    obtain ⟨h4, h5, h6⟩ := ih (s.step c o) h1
+    exact ⟨h4, h5.trans h2, h6.trans h3⟩
+
+/-! ### genesis -/
+
+theorem sumTo_zero' (n : Nat) : sumTo n (fun _ => 0) = 0 := sumTo_eq_zero (fun _ _ => rfl)
+
+theorem genesis_VInv {n i t r : Nat} (hi : i < n) : VInv n (genesisVS i t r) := by
+  have hinfo : ∀ p, infoCnt n (genesisVS i t r) p = if 1 = p then 1 else 0 := by
+    intro p
+    have := cnt_set (n := n) (fun _ => (none : Option SInfo)) hi (some ⟨1, t * ONE, 0⟩) p
+    have e0 : sumTo n (fun j => ind ((fun _ => (none : Option SInfo)) j) p) = 0 := sumTo_eq_zero (fun _ _ => rfl)
+    have e1 : ind ((fun _ => (none : Option SInfo)) i) p = 0 := rfl
+    have e2 : ind (some (⟨1, t * ONE, 0⟩ : SInfo)) p = if 1 = p then 1 else 0 := rfl
+    rw [e0, e1, e2] at this
+    simp only [infoCnt, genesisVS]
+    omega
+  have hslash : ∀ p, slashCnt (genesisVS i t r) p = 0 := fun _ => rfl
+  refine ⟨?_, ?_, ?_⟩
+  · unfold genesisVS SumInv VS.delSum
+    dsimp only
+    generalize t * ONE = T
+    constructor
+    · have := sumTo_update (fun _ => 0) (fun d => (setAt (fun _ => (none : Option Nat)) i (some T) d).getD 0) i hi
+        (fun d hd => by simp [setAt, hd])
+      rw [sumTo_zero'] at this
+      simp only [setAt_same, Option.getD_some] at this
+      omega
+    · intro e he
+      have : e ≠ i := by omega
+      simp [setAt, this]
+  · constructor
+    · show 1 ≤ 2
+      omega
+    · intro p
+      rw [hinfo, hslash]
+      show setAt (fun _ => 0) 1 2 p = _ + (if p + 1 = 2 then 1 else 0) + 0
+      by_cases h1 : p = 1
+      · subst h1; simp [setAt]
+      · have h2 : ¬ (1 = p) := fun e => h1 e.symm
+        have h3 : ¬ (p + 1 = 2) := by omega
+        simp [setAt, h1, h2, h3]
+    · intro p
+      rw [hinfo, hslash]
+      split <;> omega
+    · intro d si hs
+      show si.period + 1 ≤ 2
+      simp only [genesisVS, setAt] at hs
+      split at hs
+      · cases hs; exact Nat.le_refl _
+      · cases hs
+    · intro e he
+      cases he
+    · intro d hd
+      have : d ≠ i := by omega
+      simp [genesisVS, setAt, this]
+    · intro p q _ _
+      have : ∀ x, (genesisVS i t r).ratioAt x = 0 := by
+        intro x; simp only [VS.ratioAt, genesisVS]; exact ite_self _
+      rw [this, this]
+      exact Nat.le_refl _
+  · intro d
+    by_cases h1 : d = i
+    · subst h1; simp [genesisVS, setAt]
+    · simp [genesisVS, setAt, h1]
+
+theorem init_SInv {nAcc h0 : Nat} {vals : List (Nat × Nat)} (hv : vals.length ≤ nAcc) : SInv (init nAcc h0 vals) := by
+  intro w hw
+  have hw' : w < vals.length := hw
+  show VInv nAcc (match vals[w]? with | some (t, r) => genesisVS w t r | none => {})
+  rw [List.getElem?_eq_getElem hw']
+  exact genesis_VInv (by omega)
+
+/-- the invariant after any history from genesis -/
+theorem reach_SInv {c : Cfg} (hg : good c = true) (nAcc h0 : Nat) (vals : List (Nat × Nat)) (hv : vals.length ≤ nAcc)
+    (ops : List Op) {w : Nat} (hw : w < vals.length) : VInv nAcc (((init nAcc h0 vals).run c ops).vs w) := by
+  obtain ⟨h1, h2, h3⟩ := run_SInv hg ops (init nAcc h0 vals) (init_SInv hv)
+  have := h1 w (by rw [h3]; exact hw)
+  rw [h2] at this
+  exact this
+
 end FxVerif.Proofs.C11
